@@ -411,7 +411,11 @@ class ModelsWorld(World):
                 m = {"k": "alter", "n": self._alter_target(rng, nv)}
             else:
                 m = {"k": "describe", "s": rng.choice(["", "var A", "renamed"])}
-        return {"op": "mutate", "args": {"h": h, "m": m}}
+        step = {"op": "mutate", "args": {"h": h, "m": m}}
+        if nv > 1 and m["k"] in ("assign", "assign_variant", "alter") and rng.random() < 0.3:
+            # right after the variants were given different values: the pieces of an iteration, kept beyond the loop
+            step["args"]["iterate_after"] = True
+        return step
 
     def _alter_target(self, rng, nv):
         # growing a model that already has several (different) variants is the case that tells "clone the last" from
@@ -627,6 +631,9 @@ class ModelsWorld(World):
             # the variant clause right where it matters: after an operation that works variant by variant
             for k in range(r.real.num_variants):
                 self._split_check(r, k, opname)
+        if a.get("iterate_after") and raised is None and r.real.num_variants > 1:
+            self._check_iteration(opname + ".then_iterate", pred, r)
+            self._isolation(opname + ".then_iterate", pred)
         if m["k"] == "alter":
             self.probes["variant_count_altered"] += 1
         if m["k"] == "assign" and any(isinstance(v, list) and len(v) < r.real.num_variants for v in m["values"].values()):
